@@ -364,6 +364,18 @@ func c03Mutators() []mutator {
 			b.Message.Body.AttesterSlashings[0].Attestation2.Data.Target.Epoch += 5
 			return true
 		}},
+		mutator{"attester-slashing/surround-pair-in-the-wrong-order", false, func(m *mutCtx, b *refspec.SignedBlock) bool {
+			// is_slashable_attestation_data only accepts "attestation_1 surrounds attestation_2"
+			for i := range b.Message.Body.AttesterSlashings {
+				as := &b.Message.Body.AttesterSlashings[i]
+				d1, d2 := as.Attestation1.Data, as.Attestation2.Data
+				if d1.Source.Epoch < d2.Source.Epoch && d2.Target.Epoch < d1.Target.Epoch {
+					as.Attestation1, as.Attestation2 = as.Attestation2, as.Attestation1
+					return true
+				}
+			}
+			return false
+		}},
 		mutator{"attester-slashing/signature", false, func(m *mutCtx, b *refspec.SignedBlock) bool {
 			if len(b.Message.Body.AttesterSlashings) == 0 {
 				return false
@@ -386,6 +398,14 @@ func c03Mutators() []mutator {
 				return false
 			}
 			b.Message.Body.Deposits = b.Message.Body.Deposits[:len(b.Message.Body.Deposits)-1]
+			return true
+		}},
+		mutator{"deposit/none-on-the-block-whose-eth1-vote-makes-them-due", false, func(m *mutCtx, b *refspec.SignedBlock) bool {
+			// process_eth1_data runs before the operations: the block whose vote tips the majority must already carry the deposits
+			if len(b.Message.Body.Deposits) == 0 || m.pre.Eth1Data.DepositCount != m.pre.Eth1DepositIndex {
+				return false
+			}
+			b.Message.Body.Deposits = nil
 			return true
 		}},
 		mutator{"deposit/extra", false, func(m *mutCtx, b *refspec.SignedBlock) bool {
@@ -730,7 +750,7 @@ func runC03(b *fw.B) {
 		fam := fams[(b.Batch+k)%len(fams)]
 		sc := drawScenario(b.Rng, fam, quick, (b.Batch+k)%5 == 0)
 		sc.POps = 0.8
-		if fam == "churn" || fam == "custom" {
+		if fam == "churn" || fam == "custom" || fam == "capella" {
 			sc.PDeposits = 0.6
 		}
 		if quick {
@@ -739,10 +759,18 @@ func runC03(b *fw.B) {
 		b.Case("chain-"+fam, sc.String())
 		bases := 0
 		perFork := map[int]int{}
+		specials := 0
 		hooks := chainHooks{beforeBlock: func(c *sim.Chain, built *sim.Built) bool {
 			fork := built.Signed.Message.Fork
 			rich := len(built.Ops) >= 4
-			if perFork[fork] >= basesPerChain || !(rich || b.Rng.IntN(6) == 0) {
+			// always taken: the block whose eth1 vote makes its own deposits due, and blocks with a surround-vote slashing
+			special := len(built.Signed.Message.Body.Deposits) > 0 && built.Pre.Eth1Data.DepositCount == built.Pre.Eth1DepositIndex
+			for _, as := range built.Signed.Message.Body.AttesterSlashings {
+				special = special || as.Attestation1.Data.Target.Epoch != as.Attestation2.Data.Target.Epoch
+			}
+			if special && specials < 3 {
+				specials++
+			} else if perFork[fork] >= basesPerChain || !(rich || b.Rng.IntN(6) == 0) {
 				return false
 			}
 			perFork[fork]++
